@@ -6,12 +6,16 @@ import (
 	"reflect"
 	"strings"
 	"testing/iotest"
+	"time"
+	"unicode/utf8"
 
 	stdjson "encoding/json"
 
 	json "github.com/goccy/go-json"
 
+	"verif/mc/oracle"
 	"verif/mc/props/util"
+	"verif/mc/universe"
 	"verif/mc/work"
 )
 
@@ -24,8 +28,9 @@ import (
 // also from a reader that delivers one byte at a time).
 
 func init() {
-	work.Register("C06", "c06.lengths", func(c *work.Ctx) { lengthLadders(c, false) })
-	work.Register("C09", "c09.lengths", func(c *work.Ctx) { lengthLadders(c, true) })
+	work.Register("C06", "c06.lengths", func(c *work.Ctx) { lengthLadders(c, 0) })
+	work.Register("C09", "c09.lengths", func(c *work.Ctx) { lengthLadders(c, 1) })
+	work.Register("C02", "c02.lengths", func(c *work.Ctx) { lengthLadders(c, 2) })
 }
 
 func ladderNs(quick bool) []int {
@@ -74,6 +79,33 @@ func ladderFamilies() []ladderFam {
 			ladderFam{"unknown struct key of N x " + at.name, func(n int) string { return `{"` + strings.Repeat(at.a, n) + `":[1],"a":2}` }, "struct{A int;B string}"},
 		)
 	}
+	for _, at := range atoms {
+		at := at
+		fams = append(fams,
+			ladderFam{"TextUnmarshaler of N x " + at.name, func(n int) string { return `"` + strings.Repeat(at.a, n) + `"` }, "TextUnmarshaler"},
+			ladderFam{"TextUnmarshaler member of N x " + at.name, func(n int) string { return `{"F":"` + strings.Repeat(at.a, n) + `"}` }, "struct{F TextUnmarshaler}"},
+			ladderFam{"TextUnmarshaler map key of N x " + at.name, func(n int) string { return `{"` + strings.Repeat(at.a, n) + `":1}` }, "map[TextUnmarshaler key]int"},
+			ladderFam{"Unmarshaler given a string of N x " + at.name, func(n int) string { return `"` + strings.Repeat(at.a, n) + `"` }, "Unmarshaler"},
+			ladderFam{"[]byte given N x " + at.name, func(n int) string { return `"` + strings.Repeat(at.a, n) + `"` }, "[]byte"},
+			ladderFam{"time.Time given N x " + at.name, func(n int) string { return `"` + strings.Repeat(at.a, n) + `"` }, "time.Time"},
+			ladderFam{",string member given N x " + at.name, func(n int) string { return `{"f":"\"` + strings.Repeat(at.a, n) + `\""}` }, "struct{F string ,string}"},
+		)
+		// two-part contents: the atom N times before and after eight plain bytes (a decision taken for
+		// the first part is paid for in the second)
+		for _, pos := range []struct{ name, dest, pre, suf string }{
+			{"string", "string", `"`, `"`},
+			{"TextUnmarshaler", "TextUnmarshaler", `"`, `"`},
+			{"struct member", "struct{A int;B string}", `{"a":1,"b":"`, `"}`},
+			{"map key", "map[string]int", `{"`, `":1}`},
+			{"interface{}", "interface{}", `["`, `"]`},
+		} {
+			pos := pos
+			fams = append(fams,
+				ladderFam{pos.name + " of N x " + at.name + " then 8 plain bytes", func(n int) string { return pos.pre + strings.Repeat(at.a, n) + "abcdefgh" + pos.suf }, pos.dest},
+				ladderFam{pos.name + " of 8 plain bytes then N x " + at.name, func(n int) string { return pos.pre + "abcdefgh" + strings.Repeat(at.a, n) + pos.suf }, pos.dest},
+			)
+		}
+	}
 	fams = append(fams,
 		ladderFam{"N digits into interface{}", func(n int) string { return "1" + strings.Repeat("0", n) }, "interface{}"},
 		ladderFam{"N digits into Number", func(n int) string { return "1" + strings.Repeat("2", n) }, "Number"},
@@ -111,18 +143,41 @@ func ladderFamilies() []ladderFam {
 	return fams
 }
 
-func lengthLadders(c *work.Ctx, judgeEq bool) {
-	find := func(name string) int {
+// mode 0: C06 (every entry point returns); 1: C09 (stream = buffer, chunking-independent);
+// 2: C02 (Unmarshal and Decoder agree with encoding/json on valid, UTF-8-valid texts).
+func lengthLadders(c *work.Ctx, mode int) {
+	judgeEq := mode == 1
+	type ldest struct {
+		name string
+		t    reflect.Type
+		num  bool
+	}
+	extra := []ldest{
+		{"TextUnmarshaler", reflect.TypeOf(universe.UT{}), false},
+		{"struct{F TextUnmarshaler}", reflect.TypeOf(struct{ F universe.UT }{}), false},
+		{"map[TextUnmarshaler key]int", reflect.TypeOf(map[universe.UTS]int(nil)), false},
+		{"Unmarshaler", reflect.TypeOf(universe.UJ{}), false},
+		{"struct{F string ,string}", reflect.TypeOf(struct {
+			F string `json:"f,string"`
+		}{}), false},
+		{"time.Time", reflect.TypeOf(time.Time{}), false},
+	}
+	find := func(name string) *ldest {
 		for i := range c09Dests {
 			if c09Dests[i].name == name {
-				return i
+				return &ldest{c09Dests[i].name, c09Dests[i].t, c09Dests[i].num}
+			}
+		}
+		for i := range extra {
+			if extra[i].name == name {
+				return &extra[i]
 			}
 		}
 		panic("no destination " + name)
 	}
 	ns := ladderNs(c.Quick())
 	for _, f := range ladderFamilies() {
-		d := &c09Dests[find(f.dest)]
+		d := find(f.dest)
 		for _, n := range ns {
 			doc := f.mk(n)
 			b := []byte(doc)
@@ -135,6 +190,45 @@ func lengthLadders(c *work.Ctx, judgeEq bool) {
 			seven := streamOutcome(&chunkReader{data: b, pieceSize: 7, zeroAt: -1, failAt: -1}, d.t, d.num)
 			c.Outcome(c09Verdicts(whole))
 			nb := ladderBucket(n)
+			if mode == 2 {
+				if stdjson.Valid(b) && utf8.Valid(b) && !strings.HasPrefix(buf, "PANIC") && !strings.HasPrefix(whole, "PANIC") {
+					pw := reflect.New(d.t)
+					var werr error
+					if d.num {
+						sd := stdjson.NewDecoder(bytes.NewReader(b))
+						sd.UseNumber()
+						werr = sd.Decode(pw.Interface())
+					} else {
+						werr = stdjson.Unmarshal(b, pw.Interface())
+					}
+					want := "x"
+					if werr == nil {
+						want = "v(" + oracle.Canon(pw.Elem()) + ")E"
+					}
+					c.RefCheck(1)
+					for _, r := range []struct{ what, out string }{{"Unmarshal", buf}, {"Decoder", whole}} {
+						got := r.out
+						if r.what == "Decoder" && !strings.HasSuffix(got, ")E") {
+							got = "x"
+						}
+						if got != want {
+							kind := "value-differs"
+							if got == "x" {
+								kind = "rejects"
+							} else if want == "x" {
+								kind = "accepts"
+							}
+							c.Violation(fmt.Sprintf("length ladder : %s %s : %s", r.what, kind, f.name), fmt.Sprintf("%s, N=%d", f.name, n),
+								fmt.Sprintf("go-json %s ; encoding/json %s", clipTail([]byte(got)), clipTail([]byte(want))))
+						}
+					}
+				}
+				if c.WantSample() {
+					c.Sample(fmt.Sprintf("%s, N=%d", f.name, n))
+				}
+				c.EndCase()
+				continue
+			}
 			if !judgeEq {
 				for _, r := range []struct{ what, out string }{{"Unmarshal", buf}, {"Decoder", whole}, {"Decoder, one byte per Read", one}, {"Decoder, 7 bytes per Read", seven}} {
 					if strings.HasPrefix(r.out, "PANIC") {
@@ -168,11 +262,12 @@ func lengthLadders(c *work.Ctx, judgeEq bool) {
 					// C06's business; nothing to compare
 				} else {
 					if buf != whole && !(buf == "x" && !strings.HasSuffix(whole, ")E")) {
-						cause := ""
+						class := fmt.Sprintf("length ladder : stream-vs-buffer : %s : %s", f.name, c09Verdicts(buf)+" vs "+c09Verdicts(whole))
 						if strings.Contains(doc, "\xff") && c09Verdicts(buf) == c09Verdicts(whole) {
-							cause = " (the text contains an ill-formed UTF-8 byte)"
+							// one cause whatever the family: Unmarshal keeps an ill-formed byte, the typed stream path replaces it
+							class = fmt.Sprintf("length ladder : stream-vs-buffer : into %s : value differs, the text contains an ill-formed UTF-8 byte", d.name)
 						}
-						c.Violation(fmt.Sprintf("length ladder : stream-vs-buffer : %s : %s%s", f.name, c09Verdicts(buf)+" vs "+c09Verdicts(whole), cause), fmt.Sprintf("%s, N=%d", f.name, n),
+						c.Violation(class, fmt.Sprintf("%s, N=%d", f.name, n),
 							fmt.Sprintf("Unmarshal %s ; Decoder %s", clipTail([]byte(buf)), clipTail([]byte(whole))))
 					}
 					if one != whole {
@@ -182,15 +277,6 @@ func lengthLadders(c *work.Ctx, judgeEq bool) {
 					if seven != whole {
 						c.Violation(fmt.Sprintf("length ladder : chunking-dependent : %s : 7 bytes per Read : %s", f.name, nb), fmt.Sprintf("%s, N=%d", f.name, n),
 							fmt.Sprintf("whole %s ; 7 bytes per Read %s", clipTail([]byte(whole)), clipTail([]byte(seven))))
-					}
-					// encoding/json as a second opinion on the verdict of valid UTF-8 texts
-					if stdjson.Valid(b) && !strings.Contains(doc, "\xff") {
-						pw := reflect.New(d.t)
-						werr := stdjson.Unmarshal(b, pw.Interface())
-						c.RefCheck(1)
-						if (werr == nil) != (buf != "x") && !d.num {
-							c.Violation(fmt.Sprintf("length ladder : verdict differs from encoding/json : %s : %s", f.name, nb), fmt.Sprintf("%s, N=%d", f.name, n), fmt.Sprintf("Unmarshal %s ; encoding/json err=%v", clipTail([]byte(buf)), werr))
-						}
 					}
 				}
 			}
